@@ -47,6 +47,17 @@ func propC02(c *Ctx, r *Report) {
 	ruleDBFilesUntouched(c, r, "C02-R10/db-files-untouched")
 	ruleErrPtrOverwrite(c, r, "C02-R8/error-not-overwritten", c.RSync)
 	ruleOneAttemptPerTx(c, r, "C02-R2/one-attempt-per-tx")
+	ruleNoSQLTxControl(c, r, cat, "C02-R3/no-sql-tx-control")
+	// a failed read while the averaging window is refilled aborts the block without leaving a half-filled window behind
+	// (shared with C09)
+	r.rule("C02-R11/cache-fill-errors", 1, "a failed rate read while filling the averaging window is not skipped")
+	{
+		scope := map[*ssa.Function]bool{}
+		for _, f := range c.family(c.fn("node.Pegnetd.GetPegNetRateAverages")) {
+			scope[f] = true
+		}
+		runErrflow(c, computeEffects(c), r, scope, "C02-R11/cache-fill-errors", false)
+	}
 
 	// R7: restart equivalence of the one piece of derived state block processing keeps in memory (shared with C09)
 	windowSize(c, r, "C02-R7/restart-window")
@@ -70,28 +81,36 @@ func propC02(c *Ctx, r *Report) {
 	mhs := c.fn("pegnet.Pegnet.MarkHeightSynced")
 	mv := c.fn("pegnet.Pegnet.markHeightSyncedVersion")
 	eff := computeEffects(c)
-	scope := map[*ssa.Function]bool{is: true, mhs: true, mv: true}
+	scope := map[*ssa.Function]bool{}
+	for _, g := range []*ssa.Function{is, mhs, mv} {
+		for _, h := range c.family(g) { // with closures and helpers split off
+			scope[h] = true
+		}
+	}
 	runErrflow(c, eff, r, scope, "C02-R4/height-record", false)
 	txp := is.Params[1]
 	var mark ssa.CallInstruction
-	for _, ci := range callsOf(is) {
-		if ci.Common().StaticCallee() == mhs {
-			mark = ci
-		}
+	for _, ci := range c.findCallsFam(is, "pegnet.Pegnet.MarkHeightSynced") {
+		mark = ci
 	}
 	if mark == nil {
 		r.viol("C02-R4/height-record", "InsertSynced calls MarkHeightSynced", c.pos(is.Pos()), "the per-height version row is not written by InsertSynced")
 	} else {
-		same := unwrap(mark.Common().Args[1]) == txp
+		same := c.rootParamOf(mark.Common().Args[1], is, 0) == txp
 		r.check(same, "C02-R4/height-record", "MarkHeightSynced receives InsertSynced's tx", c.ipos(mark), "same *sql.Tx parameter", "version row written on something other than the block transaction")
-		// height argument is bs.Synced of the parameter
-		hp := valuePath(mark.Common().Args[2])
-		r.check(hp == "bs.Synced" || hp == is.Params[2].Name()+".Synced", "C02-R4/height-record", "MarkHeightSynced height is the recorded sync height", c.ipos(mark), "height = "+hp, "height argument is "+hp)
+		// height argument is the Synced field of InsertSynced's record parameter (by type, not by name)
+		hOK := false
+		if u, ok := unwrapConv(mark.Common().Args[2]).(*ssa.UnOp); ok && typePath(u) == "pegnet.BlockSync.Synced" {
+			if fa, ok := u.X.(*ssa.FieldAddr); ok && c.rootParamOf(fa.X, is, 0) == is.Params[2] {
+				hOK = true
+			}
+		}
+		r.check(hOK, "C02-R4/height-record", "MarkHeightSynced height is the recorded sync height", c.ipos(mark), "height = the record's Synced field", "height argument is "+stablePath(mark.Common().Args[2], 0))
 	}
 	metaOK := false
 	for _, st := range cat.Stmts {
-		if st.Fn == is && st.Table == "pn_metadata" && st.isWrite() {
-			metaOK = st.Recv == "Tx" && unwrap(st.RecvVal) == txp
+		if (st.Fn == is || c.inFamily(st.Fn, is)) && st.Table == "pn_metadata" && st.isWrite() {
+			metaOK = st.Recv == "Tx" && c.rootParamOf(st.RecvVal, is, 0) == txp
 		}
 	}
 	r.check(metaOK, "C02-R4/height-record", "pn_metadata written on InsertSynced's tx", c.pos(is.Pos()), "REPLACE INTO pn_metadata on the tx parameter", "pn_metadata write missing or not on the tx parameter")
